@@ -17,7 +17,11 @@ class AddImplicitCastVisitor(Visitor.DefaultVisitor):
 
     def v_ArrayExpression(self, node, ctx=None):
         assert isinstance(node, ast.ArrayExpression)
-        node.GetExpression().AcceptVisitor(self, ctx)
+        # Visit the indexed expression and the index themselves, not just
+        # their children: both can be calls, constructors or operations which
+        # need conversions of their own
+        self.v_Generic(node.GetParent(), ctx)
+        self.v_Generic(node.GetExpression(), ctx)
 
         # We allow Integer or UnsignedInteger as the index
         exprType = node.GetExpression().GetType()
